@@ -51,6 +51,9 @@ def _run_dirs(ego, env, sd, dirs, tag):
         jobs.append(([ego, "test", d], None, d, env))
         meta.append((cs, bl, d))
     res = vf.run_many(jobs, nproc=min(vf.NCPU, 16), timeout=600)
+    for i, r in enumerate(res):         # a process that printed no summary line at all never got to the tests: once more
+        if r[0] is not None and "TEST: Completed" not in r[1] and "TEST: " not in r[1]:
+            res[i] = vf.run_many([jobs[i]], nproc=1, timeout=600)[0]
     if any(r[0] is None for r in res):
         raise vf.NoVerdict("%d `ego test` processes did not finish within 600 s" % sum(r[0] is None for r in res))
     return [(cs, bl, r, d) for (cs, bl, d), r in zip(meta, res)]
@@ -120,6 +123,13 @@ def run():
             known = {c["key"] for c in cases}
             cases += [c for c in _dedupe(rs.records) if c["key"] not in known]
             ego = f_bin.result()
+        # first use of a fresh HOME creates ego's profile and databases; concurrent first uses race with each other
+        wd = os.path.join(sd, "warm")
+        os.makedirs(wd)
+        open(os.path.join(wd, "w.ego"), "w").write('@test "warm up"\n{\n\tx := 1\n\t@assert x == 1\n}\n')
+        pw = vf.run([ego, "test", wd], cwd=sd, env=env, timeout=600)
+        if "(PASS)" not in pw.stdout:
+            raise vf.NoVerdict("the built ego binary does not run a trivial test: %s %s" % (pw.stdout[-500:], pw.stderr[-500:]))
         if nex < 100 or len(cases) - nex < 50:
             raise vf.NoVerdict("generator too weak: %d exhaustive, %d sampled cases" % (nex, len(cases) - nex))
         rng = random.Random(vf.SEED)
